@@ -56,22 +56,26 @@ class Contract:
         self.raises = None
         self.raises_ensures = None
         self.modifies = None
-        self.loops: dict[int, ast.FunctionDef] = {}
+        self.loops: dict[int, list] = {}
         self.trusted = False  # assume_external: the body is not verified
+        self.interface = False  # contract of a protocol / base method used for calls on non-exact receivers
         self.name = node.name
         for st in node.body:
             if isinstance(st, ast.FunctionDef):
                 if st.name in ("requires", "ensures", "raises", "modifies", "raises_ensures"):
                     setattr(self, st.name, st)
                 elif st.name.startswith("loop_"):
-                    self.loops[int(st.name[5:])] = st
+                    # loop_<ordinal>[_<tag>]: alternatives for the same loop, tried in order; the first one
+                    # whose parameters are all locals at the loop head is used
+                    parts = st.name.split("_")
+                    self.loops.setdefault(int(parts[1]), []).append(st)
             elif isinstance(st, ast.Assign) and len(st.targets) == 1 and isinstance(st.targets[0], ast.Name):
                 n = st.targets[0].id
                 if n == "types":
                     self.types = ast.literal_eval(st.value)
                 elif n in ("returns", "self_class"):
                     setattr(self, n, ast.literal_eval(st.value))
-                elif n in ("inline", "pure_inline", "exact_self", "trusted"):
+                elif n in ("inline", "pure_inline", "exact_self", "trusted", "interface"):
                     setattr(self, n, bool(ast.literal_eval(st.value)))
 
     def text_hash(self):
@@ -145,6 +149,14 @@ class ContractDB:
                         else:
                             self.contracts[target] = c
                         self.all_contracts[target] = c
+
+    def interface_contract(self, cls: str, attr: str):
+        """(declaring class, contract) of an interface contract covering `attr` on receivers of static class cls."""
+        for q in self.w.mro(cls):
+            c = self.contracts.get(f"{q}.{attr}")
+            if c is not None and c.interface:
+                return q, c
+        return None
 
     def class_alias(self, n: str) -> Optional[str]:
         if n in self.aliases:
